@@ -1500,6 +1500,21 @@ func (x *Exec) guardCheck(p *Path, a *Addr, write bool, site ssa.Instruction) {
 	}
 	tc := x.e.cs.Types[a.TKey]
 	if tc == nil {
+		// an object of a type without declarations (net/url.URL, ...) reached through a field of a shared oxy object:
+		// writing into it is a write to shared state that nothing synchronises
+		if write && a.Via != nil && !x.isFreshObj(p, a.Obj) && !x.isFreshObj(p, a.Via.Obj) {
+			if oc := x.e.cs.Types[a.Via.TKey]; oc != nil && !x.isSetup(oc) && (oc.Immutable[a.Via.Field] || oc.Stable[a.Via.Field] || oc.Guarded[a.Via.Field] != "") {
+				if mu := oc.Guarded[a.Via.Field]; mu != "" {
+					x.lockCheck(p, a.Via.TKey, mu, a.Via.Obj, a.Via.Field+"."+a.Field, true)
+					return
+				}
+				props := []string{"C09"}
+				if oc.Shared {
+					props = nil
+				}
+				x.oblige(p, "guard", "undeclared_write:"+a.Via.Field+"."+a.Field, "false", props, "write to "+shortTypeKey(a.TKey)+"."+a.Field+" of the object held in "+shortTypeKey(a.Via.TKey)+"."+a.Via.Field+": shared state with no declared synchronisation")
+			}
+		}
 		return
 	}
 	if smu, isSink := tc.Sinks[a.Field]; isSink && !write && !x.isFreshObj(p, a.Obj) {
@@ -1511,6 +1526,28 @@ func (x *Exec) guardCheck(p *Path, a *Addr, write bool, site ssa.Instruction) {
 	}
 	mu, ok := tc.Guarded[a.Field]
 	if !ok {
+		if write && tc.Stable[a.Field] && !x.isFreshObj(p, a.Obj) && !x.isSetup(tc) {
+			// `stable` is the assumption that code outside the contracts never changes the field; oxy's own writes to
+			// it on an object it did not create must be declared in the function's modifies clause
+			declared := false
+			if x.fc != nil && !x.fc.Trusted {
+				if hasEverything(x.fc) {
+					declared = true
+				}
+				for _, k := range x.modKeysOfContract(x.fc, nil) {
+					if strings.HasPrefix(k, fieldKey(a.TKey, a.Field, "")) {
+						declared = true
+					}
+				}
+			}
+			if !declared {
+				props := []string{"C09"}
+				if x.fc != nil {
+					props = append(props, x.fc.Props...)
+				}
+				x.oblige(p, "guard", "stable_write:"+a.Field, "false", props, "write to "+shortTypeKey(a.TKey)+"."+a.Field+" (assumed stable: never changed after creation) of an object this function did not create, not declared in its modifies clause")
+			}
+		}
 		if write && tc.Immutable[a.Field] && !x.isFreshObj(p, a.Obj) && !x.isSetup(tc) {
 			x.oblige(p, "guard", "immutable_write:"+a.Field, "false", []string{"C09"}, "write to field declared immutable: "+a.TKey+"."+a.Field)
 		}
